@@ -128,6 +128,27 @@ func numericSpecs() map[string]*specs.Spec {
 		e.Mounts = append(e.Mounts, &specs.Mount{HostPath: "/z", ContainerPath: "/a"}, &specs.Mount{HostPath: "/a", ContainerPath: "/z"})
 		e.Hooks = append(e.Hooks, &specs.Hook{HookName: "poststop", Path: "/b"}, &specs.Hook{HookName: "createRuntime", Path: "/a"})
 	})
+	// every list of the document in an order that no sort produces, with repeated entries where
+	// repeats are legal: devices, env, device nodes, mounts and their options, hooks with args and
+	// env, additional gids - at spec level and in two devices
+	{
+		unsorted := func(tag string) specs.ContainerEdits {
+			return specs.ContainerEdits{
+				Env:         []string{"M_" + tag + "=1", "Z=2", "A=3", "Z=4", "B=", "A=3"},
+				DeviceNodes: []*specs.DeviceNode{{Path: "/dev/m" + tag}, {Path: "/dev/z", Type: "c", Major: 2, Minor: 9}, {Path: "/dev/a", Type: "b", Major: 9, Minor: 2}, {Path: "/dev/k"}},
+				Mounts: []*specs.Mount{{HostPath: "/m", ContainerPath: "/m/" + tag, Options: []string{"ro", "bind", "nosuid", "bind", "a"}}, {HostPath: "/z", ContainerPath: "/a"},
+					{HostPath: "/a", ContainerPath: "/z", Type: "tmpfs"}, {HostPath: "/k", ContainerPath: "/k"}},
+				Hooks: []*specs.Hook{{HookName: "prestart", Path: "/m", Args: []string{"m", "z", "a", "z"}, Env: []string{"Z=1", "A=2", "M=3"}}, {HookName: "poststop", Path: "/z"},
+					{HookName: "createRuntime", Path: "/a"}, {HookName: "prestart", Path: "/k"}, {HookName: "poststop", Path: "/z"}},
+				AdditionalGIDs: []uint32{7, 9, 1, 9, 3},
+			}
+		}
+		sp := baseSpec()
+		sp.ContainerEdits = unsorted("spec")
+		sp.Devices = []specs.Device{{Name: "mid", ContainerEdits: unsorted("mid")}, {Name: "zeta", ContainerEdits: specs.ContainerEdits{Env: []string{"Z=1"}}},
+			{Name: "alpha", ContainerEdits: unsorted("alpha")}, {Name: "0first", ContainerEdits: specs.ContainerEdits{Env: []string{"F=1"}}}, {Name: "k", ContainerEdits: specs.ContainerEdits{Env: []string{"K=1"}}}}
+		out["every-list-unsorted-with-repeats"] = sp
+	}
 	// kinds / names
 	sp := baseSpec()
 	sp.Kind = "v/c"
